@@ -31,6 +31,9 @@ Engine/RecEval.vos Engine/RecEval.vok Engine/RecEval.required_vos: Engine/RecEva
 Engine/RecInv.vo Engine/RecInv.glob Engine/RecInv.v.beautified Engine/RecInv.required_vo: Engine/RecInv.v Engine/RecEngine.vo Engine/AndOrFacts.vo
 Engine/RecInv.vio: Engine/RecInv.v Engine/RecEngine.vio Engine/AndOrFacts.vio
 Engine/RecInv.vos Engine/RecInv.vok Engine/RecInv.required_vos: Engine/RecInv.v Engine/RecEngine.vos Engine/AndOrFacts.vos
+Engine/RecSolve.vo Engine/RecSolve.glob Engine/RecSolve.v.beautified Engine/RecSolve.required_vo: Engine/RecSolve.v Engine/RecEval.vo
+Engine/RecSolve.vio: Engine/RecSolve.v Engine/RecEval.vio
+Engine/RecSolve.vos Engine/RecSolve.vok Engine/RecSolve.required_vos: Engine/RecSolve.v Engine/RecEval.vos
 Engine/RecWitness.vo Engine/RecWitness.glob Engine/RecWitness.v.beautified Engine/RecWitness.required_vo: Engine/RecWitness.v Engine/RecEngine.vo
 Engine/RecWitness.vio: Engine/RecWitness.v Engine/RecEngine.vio
 Engine/RecWitness.vos Engine/RecWitness.vok Engine/RecWitness.required_vos: Engine/RecWitness.v Engine/RecEngine.vos
@@ -46,6 +49,9 @@ Infer/Canon.vos Infer/Canon.vok Infer/Canon.required_vos: Infer/Canon.v Ir/Synta
 Infer/Closed.vo Infer/Closed.glob Infer/Closed.v.beautified Infer/Closed.required_vo: Infer/Closed.v Ir/Syntax.vo Ir/Fold.vo Infer/Table.vo Infer/Unify.vo Infer/Variance.vo
 Infer/Closed.vio: Infer/Closed.v Ir/Syntax.vio Ir/Fold.vio Infer/Table.vio Infer/Unify.vio Infer/Variance.vio
 Infer/Closed.vos Infer/Closed.vok Infer/Closed.required_vos: Infer/Closed.v Ir/Syntax.vos Ir/Fold.vos Infer/Table.vos Infer/Unify.vos Infer/Variance.vos
+Infer/Complete.vo Infer/Complete.glob Infer/Complete.v.beautified Infer/Complete.required_vo: Infer/Complete.v Ir/Syntax.vo Ir/Fold.vo Infer/Table.vo Infer/Unify.vo Infer/Closed.vo Infer/Sym.vo Infer/Sound.vo
+Infer/Complete.vio: Infer/Complete.v Ir/Syntax.vio Ir/Fold.vio Infer/Table.vio Infer/Unify.vio Infer/Closed.vio Infer/Sym.vio Infer/Sound.vio
+Infer/Complete.vos Infer/Complete.vok Infer/Complete.required_vos: Infer/Complete.v Ir/Syntax.vos Ir/Fold.vos Infer/Table.vos Infer/Unify.vos Infer/Closed.vos Infer/Sym.vos Infer/Sound.vos
 Infer/Exec.vo Infer/Exec.glob Infer/Exec.v.beautified Infer/Exec.required_vo: Infer/Exec.v Ir/Syntax.vo Ir/Fold.vo Infer/Canon.vo Infer/UCanon.vo Infer/Answer.vo Infer/Invert.vo
 Infer/Exec.vio: Infer/Exec.v Ir/Syntax.vio Ir/Fold.vio Infer/Canon.vio Infer/UCanon.vio Infer/Answer.vio Infer/Invert.vio
 Infer/Exec.vos Infer/Exec.vok Infer/Exec.required_vos: Infer/Exec.v Ir/Syntax.vos Ir/Fold.vos Infer/Canon.vos Infer/UCanon.vos Infer/Answer.vos Infer/Invert.vos
